@@ -83,8 +83,11 @@ func VH_C11_CfbOpen() {
 // back at itself must be refused, not followed while the table grows. Fixed:
 // entries 2..30 of every sector are free (-1) so the allocation table built
 // from them stays small; the first two entries and the next pointer are free.
-func VH_C11_CfbMsatChain() {
-	nsec := vhConcretize(vhInt("sectors", 1, 2), 4)
+func VH_C11_CfbMsatChain()   { vhCfbMsatChain(1, 1) }
+func VH_C11_CfbMsatChain_T() { vhCfbMsatChain(2, 2) }
+
+func vhCfbMsatChain(lo, hi int) {
+	nsec := vhConcretize(vhInt("sectors", lo, hi), 4)
 	n := 512 + 128*nsec
 	vhMaxLen(n + 8)
 	b := vhBytes("cfb", n)
